@@ -549,9 +549,25 @@ def r3_compositions(repo: Repo, rep):
             v = p.env.get("self.models")
             good = isinstance(v, ast.Call) and ends(attr_chain(v.func), "ModuleList") and len(v.args) == 1 and dump(v.args[0]) in ("models", "list(models)")
             rep.check(R, good, init.site(), init.fq, "self.models = nn.ModuleList(models)", dump(v), dump(v))
+        # composition is defined for every chain in which the next model finds its variables by name: a gate that compares whole spaces
+        # with == / != (order-sensitive) rejects chains whose variable order merely differs
+        for fn in (init, fi):
+            gates = []
+            for n in ast.walk(fn.node):
+                tests = [n.test] if isinstance(n, (ast.Assert, ast.If)) else []
+                for t in tests:
+                    for c in ast.walk(t):
+                        if isinstance(c, ast.Compare) and len(c.ops) == 1 and isinstance(c.ops[0], (ast.Eq, ast.NotEq)):
+                            sides = [c.left, c.comparators[0]]
+                            if all(isinstance(x, ast.Attribute) and x.attr in ("input_space", "output_space", "space") for x in sides):
+                                gates.append(dump(c)[:80])
+            rep.check(R, not gates, fn.site(), fn.fq, "no order-sensitive space equality gates the chain (variables are matched by name)", str(gates[:2]), f"order-sensitive gate {gates[:1]}")
 
 
 def run(repo: Repo, rep):
+    from .generic import g_arg_constructor_parameters
+    g_arg_constructor_parameters(repo, rep, lambda m: ".models." in m and ".deeponet" not in m, floor=8,
+                                 why="a model that ignores its declared spaces or hyper-parameters is not the function of named variables it was configured to be")
     r1_sanitiser(repo, rep)
     r2_fix_points_order(repo, rep)
     r3_compositions(repo, rep)
